@@ -171,6 +171,35 @@ def write_zip(path, members, compress=False):
                 data = b""
             zi.compress_type = zipfile.ZIP_DEFLATED if compress else zipfile.ZIP_STORED
             z.writestr(zi, data)
+    enc = [m["name"] for m in members if m.get("encrypted")]
+    if enc:
+        mark_encrypted(path, enc)
+
+
+def mark_encrypted(path, names):
+    """set the `encrypted` general-purpose flag of the named members (local + central header): the member
+    table still parses, but opening such a member fails without a password"""
+    import struct
+    data = bytearray(open(path, "rb").read())
+    with __import__("zipfile").ZipFile(path) as z:
+        infos = {i.filename: i.header_offset for i in z.infolist()}
+    for nm in names:
+        off = infos[nm]
+        flags = struct.unpack_from("<H", data, off + 6)[0]
+        struct.pack_into("<H", data, off + 6, flags | 1)
+    # central directory entries: signature PK\x01\x02, flags at +8, name at +46
+    pos = 0
+    while True:
+        pos = data.find(b"PK\x01\x02", pos)
+        if pos < 0:
+            break
+        nlen = struct.unpack_from("<H", data, pos + 28)[0]
+        name = bytes(data[pos + 46:pos + 46 + nlen]).decode("utf-8", "replace")
+        if name in names:
+            flags = struct.unpack_from("<H", data, pos + 8)[0]
+            struct.pack_into("<H", data, pos + 8, flags | 1)
+        pos += 46 + nlen
+    open(path, "wb").write(bytes(data))
 
 
 def gen_zip_members(rng, n):
@@ -286,6 +315,8 @@ def read_zip(path):
         with zipfile.ZipFile(path) as z:
             out = []
             for i in z.infolist():
+                if i.flag_bits & 1:
+                    continue        # encrypted member: `by_index` fails, the member is skipped
                 # zip crate `unix_mode()`: None for external_attributes == 0; Unix: high 16 bits; DOS: derived
                 # from the directory / read-only bits; other systems: None
                 if i.external_attr == 0:
